@@ -39,6 +39,9 @@ def required_counters(tier):
             "copy_constructor_steps", "class_level_steps", "failing_steps", "repeat_steps", "mask_buffer_refilled_in_place", "value_buffer_refilled_in_place"]
 
 
+ORIG_METHODS = {}
+
+
 def install_invariant():
     """icontract class invariant on GroupBy: labels / ngroups / length never change after construction."""
     try:
@@ -62,17 +65,20 @@ def install_invariant():
                 ng = self.ngroups
             except AttributeError:
                 return True  # half-built object inside __init__ of a subclass etc.
-            key = id(self)
-            if key not in BIRTH:
-                BIRTH[key] = (labels, n)
+            born = self.__dict__.get("_gbv_birth")  # kept on the object itself: an id() is reused once a temporary grouping dies
+            if born is None:
+                self.__dict__["_gbv_birth"] = (labels, n)
                 return ng == len(labels)
-            ok = BIRTH[key] == (labels, n) and ng == len(labels)
+            ok = born == (labels, n) and ng == len(labels)
             if not ok:
-                INV["fails"].append(f"labels/len changed: {BIRTH[key]} -> {(labels, n)}; ngroups={ng}")
+                INV["fails"].append(f"labels/len changed: {born} -> {(labels, n)}; ngroups={ng}")
             return True  # record, never raise inside the library call
         finally:
             TLS.busy = False
 
+    # the class-level call form (GroupBy.sum(raw_keys, ...)) hands a non-GroupBy first argument to the method, which icontract's
+    # invariant wrapper cannot digest: those calls go to the methods as the library defines them
+    ORIG_METHODS.update({k: v for k, v in vars(GroupBy).items() if callable(v) and not k.startswith("__")})
     icontract.invariant(unchanged)(GroupBy)
     GroupBy._gbv_inv = True
     return True
@@ -99,6 +105,20 @@ def nontrivial(case):
 
 def _raiser(x):
     raise RuntimeError("user function failed")
+
+
+class _ClassLevel:
+    """GroupBy.method(keys, ...) spelled as an object: attribute access gives the class-level form bound to the raw keys"""
+
+    def __init__(self, keys_obj):
+        self._keys = keys_obj
+
+    def __getattr__(self, name):
+        import functools
+
+        from groupby_lib import GroupBy
+
+        return functools.partial(ORIG_METHODS.get(name) or getattr(GroupBy, name), self._keys)
 
 
 def run_step(gb, keys_obj, step, case, idx, bufs=None, ctx=None):
@@ -139,12 +159,10 @@ def run_step(gb, keys_obj, step, case, idx, bufs=None, ctx=None):
         else:
             r.vals = {(tuple(cmp.py(x) for x in k) if isinstance(k, tuple) else (cmp.py(k),)): [int(p) for p in v] for k, v in g.items()}
         return r
-    if kind == "classlevel":
-        fn = getattr(GroupBy, op)
-        raw = lib.call(fn, keys_obj, val, mask=mask) if op != "size" else lib.call(fn, keys_obj, mask=mask)
-        return ops.normalise(raw, "red")
     times = ops.times_obj(step["times"], idx) if step.get("times") is not None else None
-    raw = ops.call_op(gb, op, step.get("params"), val, mask, transform=bool(step.get("transform")), times=times)
+    if kind == "classlevel":
+        gb = _ClassLevel(keys_obj)
+    raw = ops.call_op(gb, op, step.get("params"), val, mask, transform=bool(step.get("transform")), times=times, extra=step.get("extra"))
     return ops.normalise(raw, "row" if step.get("transform") else ops.KIND[op])
 
 
@@ -161,13 +179,15 @@ def diff(a, b, step, n):
         tol = 1e-12 * max([abs(float(v)) for v in step["val"]["vals"] if v is not None] + [1.0])
     nz = op in ("var", "std")
     kind = "row" if step.get("transform") else ops.KIND.get(op, "red")
-    if step.get("kind") in ("fail_len", "fail_func", "classlevel"):
+    if step.get("kind") in ("fail_len", "fail_func"):
         kind = "red"
     if kind == "red":
         return ops.diff_red(a, b, tol, what=op, nullzero=nz)
     if kind == "row":
         if isinstance(a.vals, dict) or isinstance(b.vals, dict):
             return None if a.vals == b.vals else f"{op}: frames differ"
+        if (step.get("extra") or {}).get("index_by_groups") and list(a.index or []) != list(b.index or []):
+            return f"{op}(index_by_groups=True): row labels differ: {list(a.index or [])[:5]} vs {list(b.index or [])[:5]}"
         return ops.diff_rows(a.vals, b.vals, tol, what=op, nullzero=nz)
     x, y = list(zip(a.index, a.vals)), list(zip(b.index, b.vals))
     return None if len(x) == len(y) and all(p[0] == q[0] and ops.same_value(p[1], q[1], 0) for p, q in zip(x, y)) else f"{op}: selected rows differ {x[:4]} vs {y[:4]}"
@@ -215,8 +235,13 @@ def check(case, ctx):
             after = state_of(gb, started_chunked)
             ctx.count(f"state:{after}")
             ctx.counters[f"transition|{before}|{step['op']}{'(T)' if step.get('transform') else ''}|{after}"] += 1
-            fresh = ops.make_gb(keys_obj, sort=case.get("sort", True))
-            rf = run_step(fresh, keys_obj, step, case, idx)
+            if kind == "classlevel":
+                # the class-level form with raw keys against the instance form on a fresh default grouping
+                fresh = ops.make_gb(keys_obj)
+                rf = run_step(fresh, keys_obj, dict(step, kind="ok"), case, idx)
+            else:
+                fresh = ops.make_gb(keys_obj, sort=case.get("sort", True))
+                rf = run_step(fresh, keys_obj, step, case, idx)
             ctx.count("steps_compared")
             d = diff(r, rf, step, n)
             hist = [s["op"] + ("(T)" if s.get("transform") else "") + (":" + s.get("kind") if s.get("kind") else "") for s in case["steps"][: j + 1]]
@@ -263,9 +288,11 @@ def gen_step(rng, n, lk, dtypes, allow_rows=True):
         step["kind"] = "fail_len"
     elif r < 0.10 and np.dtype(dtype).kind in "fiu":
         step["kind"] = "fail_func"
-    elif r < 0.18 and op in _o.RED:
+    elif r < 0.22 and op not in _o.SEL:
         step["kind"] = "classlevel"
-        step["transform"] = False
+    if (op in _o.ROLL or op == "ema") and rng.random() < 0.3:
+        step["extra"] = {"index_by_groups": True}
+        step.pop("transform", None)
     return step
 
 
